@@ -232,12 +232,12 @@ Definition process (sch : schema) (ops : list op) (fpri fpub : fault) (m : mgr)
          ({| m_pri := pri2; m_pub := pub2 |}, o2)
   end.
 
-(* recover_pub_from_pri: the file is copied, n_tries reset; the public DAO's
-   queues are NOT cleared *)
+(* recover_pub_from_pri: the file is copied, the public DAO's retained queues
+   are dropped (everything in them is already in the private DB), n_tries reset *)
 Definition health (max : nat) (m : mgr) : mgr :=
   if Nat.leb max (d_tries (m_pub m))
   then {| m_pri := m_pri m;
-          m_pub := {| d_db := d_db (m_pri m); d_q := d_q (m_pub m); d_tries := 0 |} |}
+          m_pub := {| d_db := d_db (m_pri m); d_q := clear_queues (d_q (m_pub m)); d_tries := 0 |} |}
   else m.
 
 Definition step (max : nat) (sch : schema) (m : mgr) (e : event) : mgr * outcome :=
